@@ -44,5 +44,12 @@ func writeHeader(headerPath string, header Header) error {
 	if err != nil {
 		return err
 	}
-	return os.WriteFile(headerPath, data, 0o666)
+	// Replace the header atomically. Rewriting it in place would truncate it
+	// first, and a crash before the new data is written would leave a header
+	// that cannot be read, so that the store could not be opened any more.
+	tmpPath := headerPath + ".tmp"
+	if err = os.WriteFile(tmpPath, data, 0o666); err != nil {
+		return err
+	}
+	return os.Rename(tmpPath, headerPath)
 }
